@@ -339,6 +339,10 @@ func genReqs(t *rapid.T, c Case, n int, vocab []string) []Req {
 	own := allMethodsOf(c.Tmpls)
 	var out []Req
 	for i := 0; i < n; i++ {
+		// a draw that shrinks towards "leave this request out", so that minimal cases carry few requests
+		if rapid.IntRange(0, 15).Draw(t, "keepreq") == 0 {
+			continue
+		}
 		r := Req{Method: genMethod(t, own), Target: kit.BStr(genTarget(t, api, vocab))}
 		if _, err := readRequest(r); err != nil {
 			continue // only request lines net/http can deliver
@@ -484,6 +488,9 @@ func GenComposite(t *rapid.T) Case {
 		}
 	}
 	for i := 0; i < 8; i++ {
+		if rapid.IntRange(0, 15).Draw(t, "keepreq") == 0 {
+			continue
+		}
 		var target string
 		if len(comp) > 0 && rapid.IntRange(0, 9).Draw(t, "poscomp") < 7 {
 			ti := comp[rapid.IntRange(0, len(comp)-1).Draw(t, "cpick")]
@@ -573,6 +580,7 @@ func Classify(c Case) (bool, []string) {
 			labels["undeliverable request line"] = true
 			continue
 		}
+		r.Method = req.Method
 		e := expect(c, api, r.Method, req.URL.EscapedPath())
 		if !e.Judged {
 			labels["composite: not judged (outside the positive class)"] = true
@@ -603,7 +611,7 @@ func Classify(c Case) (bool, []string) {
 		case e.Winner >= 0:
 			labels["answer: operation runs"] = true
 			if e.NFitsOwn >= 2 {
-				labels["≥2 templates fit under the method"] = true
+				labels["≥2 templates fit under the request's method"] = true
 			}
 			if len(e.Params) == 0 {
 				labels["winner is parameter-free"] = true
@@ -644,7 +652,7 @@ func Classify(c Case) (bool, []string) {
 				}
 			}
 		}
-		if e.NFitsAny >= 1 && (e.NFitsOwn >= 2 || e.NFitsAny >= 2 || resv || cleaned || !upper || e.Winner < 0) {
+		if e.NFitsAny >= 1 && (e.MaxPerM >= 2 || resv || cleaned || !upper || e.Winner < 0) {
 			nt = true
 		}
 	}
